@@ -67,7 +67,11 @@ _LZMA_DECOMPRESSION_FILTERS: List[Dict[str, int]] = [{"id": lzma.FILTER_LZMA2}]
 
 
 def _lzma_compression_filters(dw: int, preset: int) -> List[Dict[str, int]]:
-    return [{"id": lzma.FILTER_LZMA2, "preset": preset, "nice_len": dw}]
+    lzma2_filter = {"id": lzma.FILTER_LZMA2, "preset": preset, "nice_len": dw}
+    if preset & 0x1F > 6:
+        # the raw stream doesn't store the dictionary size, and the reader decodes with the default (8MiB) one.
+        lzma2_filter["dict_size"] = 1 << 23
+    return [lzma2_filter]
 
 
 def _new_garbage_val() -> int:
